@@ -515,6 +515,18 @@ class C04(ConnProp):
                     ops = cut_exact(rng, len(pre) + len(head)) + [[3, 100000], [2, rng.choice([1, 1 << 20])]]
                     out.append(self.mk(L, stream, ops, {'kind': 'limit', 'L': L, 'n': n, 'headlen': len(pre) + len(head),
                                                         'near': abs(d) <= 2}))
+        # several Content-Length lines: the last acceptable one decides, also for the limit
+        for _ in range(80 if tier == 'quick' else 4000):
+            L = rng.choice([3, 4, 8, 100, 1024, 51200])
+            over = L + rng.choice([1, 2, 1000])
+            within = rng.choice([0, 1, min(L, 2000)])
+            first, last = rng.choice([(over, within), (within, over), (over, over + 1), (within, min(L, within + 1))])
+            sep = rng.choice([b'', b'X-A: b\r\n', b'Expect: 100-continue\r\n'])
+            head = b'PUT /d HTTP/1.1\r\nContent-Length: %d\r\n' % first + sep + b'content-length:%d\r\n\r\n' % last
+            body = b'q' * (last if last <= L else 0)
+            stream = head + body + b'GET /after HTTP/1.1\r\n\r\n'
+            ops = reqgen.schedule(rng, stream, rng.choice(STYLES))
+            out.append(self.mk(L, stream, ops, {'kind': 'dup-cl', 'L': L, 'first': first, 'last': last, 'near': True}))
         # line lengths around the buffer size, at varying offsets
         m = 400 if tier == 'quick' else 30000
         for _ in range(m):
@@ -624,6 +636,17 @@ class C04(ConnProp):
                     mm = re.search(r' cl=(\d+) .* body=some:([0-9a-f]+)', x)
                     if mm and (len(mm.group(2)) // 2 != int(mm.group(1)) or int(mm.group(1)) > L):
                         v.append(self.viol(t, 'delivered body has the declared length and is within the limit', x[:200], 'body-bound'))
+            elif m['kind'] == 'dup-cl':
+                L, last = m['L'], m['last']
+                head = d[0] if d else 'nothing'
+                if last <= L:
+                    if not head.startswith('REQ') or (' cl=%d ' % last) not in head:
+                        v.append(self.viol(t, 'Content-Length %d then %d under limit %d: the last value decides, the request is delivered' % (m['first'], last, L),
+                                           head[:160], 'dup-cl'))
+                else:
+                    want_err = 'Err(ParseError(SizeLimitExceeded(%d,%d)))' % (L, last)
+                    if head != want_err:
+                        v.append(self.viol(t, 'Content-Length %d then %d under limit %d: %s' % (m['first'], last, L, want_err), head[:160], 'dup-cl'))
             elif m['kind'].startswith('line-'):
                 ll = m['line']
                 errs = [x for x in d if x.startswith('Err(')]
